@@ -12,8 +12,7 @@ from vlib import (CONFIGS, LEAN, Driver, cxx, finish, kv, pmap, prove, rng_for, 
 PROP = "C02"
 ASSUME = [
     "π is a formal base (the library treats it symbolically as well)",
-    "spellings exercised: unit types, quantity makers, unit symbols (singular names and constants share the same mix-ins; "
-    "constants are covered by C16)",
+    "spellings exercised: unit types, quantity makers, unit symbols, constants (make_constant), singular names (products, integer powers, maker / singular, singular * maker)",
     "expressions that put two units of identical dimension and magnitude into one product are excluded by construction "
     "(documented 'broken strict total ordering' limitation, applied conservatively)",
     "the Lean theorems hold for every strict total order on unit types; that the library's InOrderFor<UnitProduct> is one on "
@@ -219,14 +218,14 @@ def main(tier, seed):
         if uexpr.size(t) > 40:
             continue
         variants = []
-        for sp in ("maker", "symbol"):
+        for sp in ("maker", "symbol", "constant", "singular", "mixed"):
             if uexpr.cxx(t, A, sp) is not None:
                 variants.append((t, sp))
         for _ in range(5):
             v = t
             for _ in range(rng.randrange(1, 4)):
                 v = uexpr.rewrite(rng, v)
-            sp = rng.choice(["unit", "unit", "maker", "symbol"])
+            sp = rng.choice(["unit", "unit", "maker", "symbol", "constant", "singular", "mixed"])
             if uexpr.cxx(v, A, sp) is None:
                 sp = "unit"
             variants.append((v, sp))
@@ -377,7 +376,7 @@ def main(tier, seed):
                                    "rec": dict(base, kind="ratio", tree2=uexpr.show(c["tree2"]))})
     coverage = {
         "evaluations": evaluations, "distinct_nontrivial": len(distinct),
-        "rule": "case = (expression tree over library units/prefixed units/scalings, 5-7 rewritings in 3 spellings, a second tree); "
+        "rule": "case = (expression tree over library units/prefixed units/scalings, 5-10 rewritings in 6 spellings, a second tree); "
                 "trees generated from the seed, depth <= 4 (quick) / 6 (thorough); distinct_nontrivial = distinct trees that compiled "
                 "and were compared in at least one configuration",
         "samples": samples, "distribution": stats,
